@@ -105,15 +105,18 @@ func (op Cil) Disassembler(arch *Arch, instr string) (string, error) {
 // The simulation does nothing
 func (op Cil) Simulate(vm *VM, instr string) error {
 	reg_bits := vm.Mach.R
-	regdest := get_id(instr[:reg_bits])
-	regsrc := get_id(instr[reg_bits : reg_bits*2])
+	reg := get_id(instr[:reg_bits])
 	switch vm.Mach.Rsize {
 	case 8:
-		vm.Registers[regdest] = vm.Registers[regsrc].(uint8) << 1
+		vm.Registers[reg] = vm.Registers[reg].(uint8) << 1
 	case 16:
-		vm.Registers[regdest] = vm.Registers[regsrc].(uint16) << 1
+		vm.Registers[reg] = vm.Registers[reg].(uint16) << 1
+	case 32:
+		vm.Registers[reg] = vm.Registers[reg].(uint32) << 1
+	case 64:
+		vm.Registers[reg] = vm.Registers[reg].(uint64) << 1
 	default:
-		// TODO Fix
+		return errors.New("invalid register size, 8, 16, 32 and 64 bits are supported")
 	}
 	vm.Pc = vm.Pc + 1
 	return nil
